@@ -19,6 +19,18 @@ CLAIMS = {
          'Model hand-written; correspondence bounded.'),
  'C20': ('proof', 'C20_request (formula for every request of every call), C20_config_from_init (channel precedence), C20_no_leak (all histories without process end); correspondence with random unicode strings and interleaved channels, requests captured as serialised by the library.',
          'platform/arch are compile-time constants checked by the harness (linux/x86_64), not modelled.'),
+ 'C03': ('proof', 'C03_good_frame / C03_good_persists (last good record and artifact survive every call and every history that does not concern its number), C03_booting_persists + C03_success_promotes_intact (the promoted patch still has its artifact), C03_fallback_target, C03_unrelated_selection_kept. Under invariant I-same (one number, one record) kept by consistent installs. Correspondence: exhaustive depth-k continuations of 7 lifecycle prefixes + random walks, model vs real library, zero tolerance on state divergence.',
+         'Hypotheses visible in the statements: release-stable disk, no outside damage to that artifact / the state files, installs consistent with records of the same number (one content per patch number).'),
+ 'C09': ('proof', 'C09_install_selects, C09_selection_frame, C09_selection_persists (all histories), C09_selected_is_reported, C09_already_installed. Correspondence as C03 incl. lower-numbered installs and installs during boot.',
+         'When a key is configured, install_selects assumes the served signature verifies (otherwise C07 rightly discards the patch).'),
+ 'C10': ('proof', 'C10_rollback_now_check / _update (any list: order, duplicates, unknown numbers), C10_fallback_target, C10_gone_frame and C10_sticks (every history without an install of x), C10_gone_not_reported. Correspondence: rollback lists through both entry points from 7 lifecycle states.',
+         'Model hand-written; correspondence bounded.'),
+ 'C17': ('proof', 'C17_success_event (iff), C17_failure_queues_one, C17_crash_detection_queues_one, C17_update_flushes (3 oldest, in order, before the check; only a download event after; iff installed), C17_update_empties_queue, C17_payload. Correspondence: report-callback log order and payload on exhaustive lifecycle histories.',
+         'Event timestamps ignored; asynchronous event threads are joined by the harness before the trace line is taken.'),
+ 'C18': ('proof', 'C18_start_sets_current, C18_current_reported, C18_current_frame / C18_current_persists (booting, then promoted), C18_no_spurious_restart_required, C18_after_restart. Correspondence: current/next queries interleaved in exhaustive lifecycle histories.',
+         'Rollback of the running patch and a second launch start in one process are outside the statement (as the property scopes them).'),
+ 'C19': ('proof', 'C19_after_success, C19_failed, C19_crash_detected, C19_rolled_back, C19_superseded, C19_release_change as one-step post-conditions on the model; correspondence: directory listing after every op of exhaustive lifecycle histories incl. junk directories and release changes.',
+         'Fault-free semantics (deletions that fail are covered under C04).'),
 }
 NA = {}
 def main():
